@@ -627,7 +627,7 @@ def start_tables(ctx):
 def plan(tier):
     depth = 2 if tier == 'quick' else 3
     nexh = 6 * len(OP_NAMES)
-    nrand = 1500 if tier == 'quick' else 40000
+    nrand = 1000 if tier == 'quick' else 40000
     return {'cases': nexh + nrand, 'nexh': nexh, 'nrand': nrand,
             'depth': depth, 'shards': 16, 'min_nontrivial': 300,
             'timeout': 1200 if tier == 'quick' else 5400}
